@@ -553,6 +553,27 @@ def judge_signer(ctx, S, M, args, exp_key, exp_loc, w, rng):
     kl = r['sig_info']['key_name'] if r['sig_info'] else None
     if kl is None or tuple(kl) != tuple(exp_loc):
         ctx.report('signer-key-locator', 'key locator is not the selected/default certificate (or the explicit key_locator)', w)
+    # signers the application obtained EARLIER and kept (one per purpose) are used again after this request: each still signs with
+    # the key and names the key locator it was obtained for
+    held = getattr(S, 'held_signers', None)
+    if held is None:
+        held = S.held_signers = []
+    for (s0, k0, loc0, bits0) in held:
+        if M.find_key(k0) is None:
+            continue
+        try:
+            r0 = rc.strict_data(bytes(make_data([C(b'signed-later'), C(gen.rand_bytes(rng, 4))], MetaInfo(), b'y', s0)))
+        except Exception as e:   # noqa
+            ctx.report(f'held-signer-raises:{type(e).__name__}', f'a signer obtained earlier raised {e!r} when used again', w)
+            continue
+        ctx.event('held-signer-used-again-after-a-later-request')
+        kl0 = r0['sig_info']['key_name'] if r0['sig_info'] else None
+        if kl0 is None or tuple(kl0) != tuple(loc0):
+            ctx.report('held-signer-key-locator-changed', 'a signer obtained earlier (and kept by the application) names another key locator after a later get_signer request', w)
+        elif not verify_sig(bits0, r0['signed_portion'], r0['sig_value']):
+            ctx.report('held-signer-key-changed', 'a signer obtained earlier signs with another key after a later get_signer request', w)
+    held.append((s, exp_key, tuple(exp_loc), bits))
+    del held[:-5]
 
 
 # ------------------------------------------------------------------ operations
